@@ -52,3 +52,40 @@ int w_selfcheck_errno_on_failure(int fd)
 	}
 	return 0;
 }
+
+#include <pthread.h>
+static pthread_mutex_t w_selfcheck_mutex = PTHREAD_MUTEX_INITIALIZER;
+int w_selfcheck_shared;
+
+/* a path that returns with the mutex still held (detector: sa/narrow.py held_at_return) */
+int w_selfcheck_missing_unlock(int x)
+{
+	pthread_mutex_lock(&w_selfcheck_mutex);
+	if (x < 0)
+		return -1;
+	w_selfcheck_shared = x;
+	pthread_mutex_unlock(&w_selfcheck_mutex);
+	return 0;
+}
+
+int w_selfcheck_paired_unlock(int x)
+{
+	int ret = 0;
+
+	pthread_mutex_lock(&w_selfcheck_mutex);
+	if (x < 0)
+		ret = -1;
+	else
+		w_selfcheck_shared = x;
+	pthread_mutex_unlock(&w_selfcheck_mutex);
+	return ret;
+}
+
+#include <stdlib.h>
+/* a value used before it is assigned (detector: sa/narrow.py undef_uses) */
+void w_selfcheck_use_before_def(void)
+{
+	void *p;
+
+	free(p);
+}
